@@ -12,6 +12,7 @@ import (
 	"testing/synctest"
 	"time"
 
+	"github.com/hashicorp/memberlist"
 	"github.com/hashicorp/serf/serf"
 
 	"verif/harness/cluster"
@@ -420,7 +421,15 @@ func TestC16(t *testing.T) {
 							p.expect = append(p.expect, c16Ev{"update", v})
 							p.trace = append(p.trace, "update "+v)
 						case mlAlive && choice < 60:
-							nd.NotifyLeave(cluster.FakeNode(p.name, ip, 7946, wire.EncodeTags(map[string]string{"v": v})))
+							// memberlist reports how the member went: declared dead by others, or by a dead
+							// message of its own (a memberlist-level leave; serf's leave intent may have been
+							// lost or not sent at all). What the member is to serf depends on the intent alone.
+							gone := cluster.FakeNode(p.name, ip, 7946, wire.EncodeTags(map[string]string{"v": v}))
+							gone.State = memberlist.StateDead
+							if choice%2 == 0 {
+								gone.State = memberlist.StateLeft
+							}
+							nd.NotifyLeave(gone)
 							mlAlive = false
 							if status == "leaving" {
 								status = "left"
